@@ -369,7 +369,54 @@ class Aligner:
             return [x for x in kids(s) if x]
         return [s]
 
+    def _const_pure(self, db, e):
+        """No side effect and nothing the function could have changed in between: only const-qualified objects are read, only const
+        member functions (those callable on a const object) and the listed pure helpers are called."""
+        for x in walk(e):
+            k = x.get("kind")
+            if k == "CXXMemberCallExpr":
+                mb = db.member_base(x)
+                if mb is None or "const" not in (qt(_u(mb)) or ""):
+                    return False
+            elif k in ("CallExpr", "CXXOperatorCallExpr"):
+                nm = _callee_name(db, x)
+                if nm not in PURE_CALLS or nm in ("move", "forward", "bind"):
+                    return False
+            elif k in ("BinaryOperator",) and x.get("opcode") in ("=", ","):
+                return False
+            elif k == "CompoundAssignOperator" or (k == "UnaryOperator" and x.get("opcode") in ("++", "--", "&")):
+                return False
+            elif k in ("CXXNewExpr", "CXXDeleteExpr", "CXXThrowExpr", "LambdaExpr"):
+                return False
+            elif k == "DeclRefExpr":
+                rd = x.get("referencedDecl", {})
+                if rd.get("kind") in ("VarDecl", "ParmVarDecl") and "const" not in (rd.get("type", {}).get("qualType", "") or ""):
+                    return False
+            elif k == "MemberExpr" and not kids(x):
+                return False                      # implicit this->member of a non-const method: may change
+        return True
+
+    def _propagate_const_locals(self, stmts, db):
+        """`const T v = <pure expression over const objects>;` followed by uses of v says the same as the uses of the expression
+        itself: drop the declaration and substitute (both sides, so a hoisting on one side only does not matter)."""
+        from ..astq import AstDB
+        out, mapping = [], {}
+        for s0 in stmts:
+            s1 = AstDB._subst(s0, mapping) if mapping else s0
+            if s1.get("kind") == "DeclStmt" and len(kids(s1)) == 1:
+                d = kids(s1)[0]
+                t = qt(d) or ""
+                init = [c for c in kids(d) if isinstance(c, dict) and c.get("kind")]
+                if d.get("kind") == "VarDecl" and init and t.startswith("const ") and "&" not in t and "*" not in t and \
+                        any(w in t for w in ("size_t", "int", "long", "double", "bool", "unsigned")) and self._const_pure(db, init[-1]):
+                    mapping[d["id"]] = init[-1]
+                    continue
+            out.append(s1)
+        return out
+
     def same_list(self, la, lb, ctx):
+        la = self._propagate_const_locals([s for s in la if s], self.da)
+        lb = self._propagate_const_locals([s for s in lb if s], self.db)
         la = _hoist_else([s for s in la if s])
         lb = _hoist_else([s for s in lb if s])
         if ctx in LOOP_CTX:
@@ -394,7 +441,11 @@ class Aligner:
                 # the two sides may say the same thing differently (if/else vs conditional expression, De Morgan, early return vs
                 # else): decide by comparing the *effects* of short statement windows under every valuation of their conditions
                 step = None
-                for wa, wb in ((1, 1), (1, 2), (2, 1), (2, 2)):
+                wins = [(1, 1), (1, 2), (2, 1), (2, 2)]
+                ra, rb = len(la) - i, len(lb) - j
+                if (ra, rb) not in wins and ra <= 5 and rb <= 5:
+                    wins.append((ra, rb))            # the whole remaining tails (an if/else turned into `if {..; continue;} rest` on one side)
+                for wa, wb in wins:
                     tail = ctx in LOOP_CTX and i + wa == len(la) and j + wb == len(lb)
                     if i + wa <= len(la) and j + wb <= len(lb) and self.effects_equal(la[i:i + wa], lb[j:j + wb], loop_tail=tail):
                         step = (wa, wb)
@@ -416,6 +467,38 @@ class Aligner:
 
     def _atom_key(self, e, side):
         return canon(e, self.rename if side == "b" else None)
+
+    def _atom_id(self, e, side):
+        """Key of an opaque condition atom.  Two atoms from different sides are the same atom when the aligner itself finds them equal
+        (renames, dropped arguments, rewrites applied) - comparing their texts would miss `BuildPath64(.., path)` vs
+        `BuildPathD(.., path, invScale_)`."""
+        txt = self._atom_key(e, side)
+        cache = getattr(self, "_atom_cache", None)
+        if cache is None:
+            cache = self._atom_cache = {}
+            self._atoms = []
+        ck = (id(e), side)
+        if ck in cache:
+            return cache[ck]
+        found = None
+        for (node, sd, t) in self._atoms:
+            if sd == side:
+                if t == txt:
+                    found = t
+                    break
+            else:
+                na, nb = (node, e) if sd == "a" else (e, node)
+                try:
+                    self.same(na, nb)
+                    found = t
+                    break
+                except (Diff, AnalysisBroken, KeyError, IndexError):
+                    continue
+        if found is None:
+            self._atoms.append((e, side, txt))
+            found = txt
+        cache[ck] = found
+        return found
 
     def _bool(self, e, val, side):
         """Truth value of a condition under the valuation `val` (atom text -> bool)."""
@@ -455,7 +538,7 @@ class Aligner:
             else:
                 key, neg = "%s < %s" % (b, a), True
         else:
-            key = self._atom_key(e, side)
+            key = self._atom_id(e, side)
         for w in getattr(self, "_written", ()):
             if w and w in key:
                 raise Aligner._Giveup()          # the window assigns something this condition reads: order matters, do not guess
@@ -519,6 +602,8 @@ class Aligner:
         # only worth trying when at least one side has a branch, a conditional expression or a boolean return
         atoms = []
         leaves = [0]
+        self._atom_cache = {}
+        self._atoms = []
 
         def same_node(x, y):
             if isinstance(x, bool) or isinstance(y, bool) or x is None or y is None:
